@@ -28,7 +28,7 @@ AckDgram(mid) == Encode([ver |-> 1, typ |-> 2, code |-> 0, mid |-> mid, tok |-> 
 \* Observe value seen for it, unacked = confirmable notifications received since the last ack
 VARIABLES sv, cl, round, lastMid, h, viol
 vars == << sv, cl, round, lastMid, h, viol >>
-NoReg == [reg |-> FALSE, tok |-> << >>, last |-> 0 - 1, nreg |-> 0, unacked |-> 0]
+NoReg == [reg |-> FALSE, tok |-> << >>, last |-> 0 - 1, nreg |-> 0, unacked |-> 0, pend |-> 0 - 1]
 Init == /\ sv = [InitServer EXCEPT !.subj = SetLimit(@, 1)] /\ cl = [c \in Clients |-> [p \in PathsB |-> NoReg]]
         /\ round = 0 /\ lastMid = 0 /\ h = << [op |-> "limit", n |-> 1] >> /\ viol = << >>
 
@@ -41,7 +41,7 @@ DoRegister(c, p) ==
       x == HandleRequest(sv, c, dg)
       r == Decode(x.out.v).msg IN
   /\ sv' = x.sv /\ h' = Append(h, [op |-> "req", ep |-> c, dg |-> dg])
-  /\ cl' = [cl EXCEPT ![c][p] = [reg |-> TRUE, tok |-> tok, last |-> ObsValue(r), nreg |-> k.nreg + 1, unacked |-> 0]]
+  /\ cl' = [cl EXCEPT ![c][p] = [reg |-> TRUE, tok |-> tok, last |-> ObsValue(r), nreg |-> k.nreg + 1, unacked |-> 0, pend |-> 0 - 1]]
   /\ viol' = viol \o Check(x.out.some /\ r.tok = tok /\ ObsValue(r) >= 0, "registration reply lacks token / Observe")
   /\ UNCHANGED << round, lastMid >>
 
@@ -75,29 +75,24 @@ DoChange(p, con) ==
   /\ cl' = [c \in Clients |-> [q \in PathsB |->
              IF q = p /\ recv(c) # {}
              THEN LET i == CHOOSE i \in recv(c) : TRUE IN
-                  [cl[c][q] EXCEPT !.last = ObsValue(Decode(x.out[i].dg).msg), !.unacked = IF con THEN @ + 1 ELSE @]
+                  [cl[c][q] EXCEPT !.last = ObsValue(Decode(x.out[i].dg).msg), !.unacked = IF con THEN @ + 1 ELSE @, !.pend = mid]
              ELSE IF q = p /\ cl[c][q].reg THEN [cl[c][q] EXCEPT !.reg = FALSE]      \* dropped by the server
              ELSE cl[c][q]]]
 
-\* acknowledge the most recent round's id, or a stale one
-DoAck(c, stale) ==
-  LET mid == IF stale THEN lastMid - 1 ELSE lastMid
-      dg == AckDgram(mid)
+\* acknowledge the id of a notification this client holds, or an id nobody holds
+DoAck(c, m) ==
+  LET dg == AckDgram(m)
       x == HandleRequest(sv, c, dg) IN
-  /\ round > 0
   /\ sv' = x.sv /\ h' = Append(h, [op |-> "req", ep |-> c, dg |-> dg])
   /\ viol' = viol \o Check(~x.out.some, "an acknowledgement was answered")
-  \* the client's own count: an ack of the latest id resets every registration that received it
   /\ cl' = [cl EXCEPT ![c] = [q \in PathsB |->
-               IF ~stale /\ cl[c][q].reg /\ LastWasFor(c, q) THEN [cl[c][q] EXCEPT !.unacked = 0] ELSE cl[c][q]]]
+               IF cl[c][q].reg /\ cl[c][q].pend = m THEN [cl[c][q] EXCEPT !.unacked = 0, !.pend = 0 - 1] ELSE cl[c][q]]]
   /\ UNCHANGED << round, lastMid >>
-LastWasFor(c, q) == Present(sv.subj, q) /\ \E i \in 1 .. Len(sv.subj.res[q].obs) :
-                       sv.subj.res[q].obs[i].ep = c /\ sv.subj.res[q].obs[i].mid = Mid(lastMid)
 
 Next == /\ Len(h) <= Depth
         /\ \/ \E c \in Clients, p \in PathsB : DoRegister(c, p) \/ DoDeregister(c, p)
            \/ \E p \in PathsB, con \in BOOLEAN : DoChange(p, con)
-           \/ \E c \in Clients, stale \in BOOLEAN : DoAck(c, stale)
+           \/ \E c \in Clients : \E m \in { cl[c][q].pend : q \in PathsB } \cup { 999 } : m >= 0 /\ DoAck(c, m)
 Spec == Init /\ [][Next]_vars
 
 NoViolation == viol = << >>
